@@ -238,6 +238,17 @@ fn prop(c: &Case) -> Verdict {
             }
         }
     }
+    if is_resolve && ours != base && theirs != base {
+        // no base line survives on either side: the whole file is one conflict, the result is the chosen side
+        let bl = lines_of(base);
+        let disjoint = |t: &[u8]| lines_of(t).iter().all(|l| !bl.contains(l));
+        if disjoint(ours) && disjoint(theirs) {
+            let chosen = if mode == b"ours" { ours } else { theirs };
+            if out != chosen {
+                return Verdict::fail(format!("resolve-whole-file-{modes}"), format!("got {}", show(&out)));
+            }
+        }
+    }
     if is_resolve {
         // lines come from the base or the chosen side — or from the other side where it alone changed the base:
         // if the other side did not change the base at all, only base ∪ chosen side remain
@@ -432,6 +443,24 @@ fn gen(rng: &mut Rng, n: usize) -> Vec<Case> {
             // a change on top of ours: overlapping, partly identical changes
             4..=8 => mutate(rng, &ours_l, crlf_bias, 1),
             _ => mutate(rng, &base, crlf_bias, e2),
+        };
+        // sometimes: three texts without a common line (whole-file conflict)
+        let (base, ours_l, theirs_l) = if kind == 19 && rng.chance(1, 2) {
+            let pickl = |rng: &mut Rng, words: &[&[u8]], n: usize| -> Vec<Vec<u8>> {
+                (0..n)
+                    .map(|_| {
+                        let mut l = rng.pick(words).to_vec();
+                        l.extend_from_slice(if rng.below(100) < crlf_bias { b"\r\n" } else { b"\n" });
+                        l
+                    })
+                    .collect()
+            };
+            let nb = rng.below(4) as usize;
+            let no = rng.below(4) as usize;
+            let nt = rng.below(4) as usize;
+            (pickl(rng, &[b"a", b"b"], nb), pickl(rng, &[b"c", b"d"], no), pickl(rng, &[b"e", b"x y"], nt))
+        } else {
+            (base, ours_l, theirs_l)
         };
         let strip = rng.below(6);
         let b = flat(rng, &base, strip == 0 || strip == 1);
